@@ -1,6 +1,453 @@
+"""C13, parts 2 and 3: specs/robust/RefGraph.tla and specs/robust/Accessors.tla bound to the code.
+
+RefGraph: TLC enumerates every canonical reference graph x traversal, deciding for the as-coded machine (cycle guards the
+code has today = all guards minus the Dev switches carried by known findings) whether the traversal ends within the
+bound, and checking the Bound invariant on the intended machine (all guards) for every graph.  Every emitted (graph,
+traversal) pair - thorough: all of the 3-node space and a seeded sample of the larger ones; quick: a seeded sample - is
+realised as a PDF document and driven through the extraction entry points (direct API for the traversals no entry point
+reaches: outlines and name trees, reported as notes only) under the work meter.
+
+Accessors: TLC enumerates accessor x value kind x STRICT; every cell is replayed on the real function.
+"""
+import io
+import json
+import logging
+import os
+import random
+
+from ..deviations import active, tla_set
+from ..observe import faultrun, workmeter
+from ..realise.pdfwriter import Name, Ref, Stream, ser
+from ..tlc import MachineryError, SPECS, require_coverage, run_tlc, write_cfg
+
+logging.disable(logging.CRITICAL)
+ROBUST = os.path.join(SPECS, "robust")
+ALL_TRAVS = ["resolve1", "accessor", "resolve_all", "getobj", "xrefchain", "pagetree", "numtree", "nametree", "outline"]
+ENTRY_TRAVS = ["resolve1", "accessor", "resolve_all", "getobj", "xrefchain", "pagetree", "numtree"]   # reachable from the entry points
+GUARD_DEVS = {t: "No%sGuard" % t for t in ALL_TRAVS if t != "pagetree"}
+N = Name
+CONTENT = b"BT /F1 12 Tf 72 700 Td (graph) Tj ET\n"
+
+
+# ================================================================================================ Accessors
+def _accessor_doc():
+    objs = {11: None, 12: True, 13: 7, 14: 1.5, 15: N("Xq"), 16: b"xy", 17: [1, 2, 3, 4], 18: {"K": 7},
+            19: Stream({}, b"q Q"), 20: Ref(20)}
+    data = _plain_doc(objs)
+    from pdfminer.pdfdocument import PDFDocument
+    from pdfminer.pdfparser import PDFParser
+    return PDFDocument(PDFParser(io.BytesIO(data)))
+
+
+KIND_OBJ = {"null": 11, "bool": 12, "int": 13, "real": 14, "name": 15, "string": 16, "array": 17, "dict": 18, "stream": 19}
+
+
+def _plain_doc(extra, catalog_extra=None, page_extra=None, font_extra=None, contents=CONTENT):
+    """a one-page classic document plus the given objects (numbers >= 10)"""
+    objs = {1: dict({"Type": N("Catalog"), "Pages": Ref(2)}, **(catalog_extra or {})),
+            2: {"Type": N("Pages"), "Kids": [Ref(3)], "Count": 1},
+            3: dict({"Type": N("Page"), "Parent": Ref(2), "MediaBox": [0, 0, 612, 792],
+                     "Resources": {"Font": {"F1": Ref(4)}}, "Contents": Ref(5)}, **(page_extra or {})),
+            4: dict({"Type": N("Font"), "Subtype": N("Type1"), "BaseFont": N("Helvetica")}, **(font_extra or {})),
+            5: Stream({}, contents)}
+    objs.update(extra)
+    out = bytearray(b"%PDF-1.4\n")
+    offs = {}
+    for n in sorted(objs):
+        offs[n] = len(out)
+        v = objs[n]
+        if isinstance(v, Stream):
+            attrs = dict(v.attrs)
+            attrs.setdefault("Length", len(v.data))
+            body = ser(attrs) + b"\nstream\n" + v.data + b"\nendstream"
+        else:
+            body = ser(v)
+        out += b"%d 0 obj\n" % n + body + b"\nendobj\n"
+    xpos = len(out)
+    top = max(objs)
+    out += b"xref\n0 %d\n" % (top + 1)
+    for n in range(top + 1):
+        if n in offs:
+            out += b"%010d 00000 n \n" % offs[n]
+        else:
+            out += b"0000000000 65535 f \n"
+    out += b"trailer\n" + ser({"Size": top + 1, "Root": Ref(1)}) + b"\nstartxref\n%d\n%%%%EOF\n" % xpos
+    return bytes(out)
+
+
+def _real_accessor(doc, acc, kind, strict, meter):
+    from pdfminer import casting, pdftypes, settings
+    from pdfminer.pdfexceptions import PDFTypeError
+    from pdfminer.pdftypes import PDFObjRef, PDFStream
+    from pdfminer.psparser import LIT
+    direct = {"null": None, "bool": True, "int": 7, "real": 1.5, "name": LIT("Xq"), "string": b"xy",
+              "array": [1, 2, 3, 4], "dict": {"K": 7}, "stream": PDFStream({}, b"q Q")}
+    if kind in direct:
+        x = direct[kind]
+    elif kind == "ref_missing":
+        x = PDFObjRef(doc, 99)
+    elif kind == "ref_self":
+        x = PDFObjRef(doc, 20)
+    else:
+        x = PDFObjRef(doc, KIND_OBJ[kind[4:]])
+    if acc in ("safe_int", "safe_float", "safe_rect_list"):
+        fn = lambda: getattr(casting, acc)(x)                       # noqa: E731
+    elif acc == "safe_rgb":
+        fn = lambda: casting.safe_rgb(x, 0, 0)                      # noqa: E731
+    elif acc in ("safe_cmyk", "safe_rect"):
+        fn = lambda: getattr(casting, acc)(x, 0, 0, 0)              # noqa: E731
+    elif acc == "safe_matrix":
+        fn = lambda: casting.safe_matrix(x, 0, 0, 1, 0, 0)          # noqa: E731
+    elif acc == "uint_value":
+        fn = lambda: pdftypes.uint_value(x, 8)                      # noqa: E731
+    else:
+        fn = lambda: getattr(pdftypes, acc)(x)                      # noqa: E731
+    old = settings.STRICT
+    settings.STRICT = strict
+    try:
+        res, exc = meter.run(fn, 100_000, wall=20)
+    finally:
+        settings.STRICT = old
+    oc = workmeter.classify(meter, exc)
+    if isinstance(exc, PDFTypeError):
+        return "PDFTypeError", oc
+    if oc.startswith("hang"):
+        return "diverge", oc
+    if oc != "ok":
+        return oc.split("@")[0], oc
+    if acc.startswith("safe_"):
+        return ("none" if res is None else "value"), oc
+    defaults = {"int_value": 0, "float_value": 0.0, "num_value": 0, "uint_value": 256, "str_value": b"",
+                "list_value": [], "dict_value": {}}
+    if acc == "stream_value":
+        return ("default" if (isinstance(res, PDFStream) and res.attrs == {} and res.rawdata == b"") else "value"), oc
+    if acc == "resolve1":
+        return "value", oc
+    same = res == defaults[acc] and type(res) is type(defaults[acc])
+    return ("default" if same else "value"), oc
+
+
+def accessor_cfg(ck, dev, name):
+    return write_cfg(os.path.join(ck.tmp, name), constants={"Dev": tla_set(dev), "MaxSteps": 6},
+                     invariants=["Total", "Bounded", "AgreesWithReference"], constraints=["Emit"])
+
+
 def run_accessors(ck):
-    pass
+    spec = os.path.join(ROBUST, "Accessors.tla")
+    dev = [d for d in active("robust") if d in ("Resolve1NoCycleGuard", "RectListStreamKeyError")]
+    # (a) the intended design is total
+    res = run_tlc(spec, accessor_cfg(ck, [], "acc_intended.cfg"), coverage=True, timeout=600, workers=2)
+    ck.add_tlc(res, "Accessors.tla intended (Dev = {})")
+    if not res.ok:
+        raise MachineryError("Accessors.tla: the intended accessors violate %s:\n%s" % (res.violated, res.error_text[:2000]))
+    require_coverage(res, ["AResolveStep", "ACheck", "ACast"])
+    # (b) the accessors as coded: TLC finds the cells that are not total; every cell is replayed
+    emit = os.path.join(ck.tmp, "acc.ndjson")
+    cfg = write_cfg(os.path.join(ck.tmp, "acc_coded.cfg"), constants={"Dev": tla_set(dev), "MaxSteps": 6},
+                    constraints=["Emit"])
+    res = run_tlc(spec, cfg, emit=emit, timeout=600, workers=2)
+    ck.add_tlc(res, "Accessors.tla as coded (Dev = %s)" % tla_set(dev))
+    if dev:
+        chk = run_tlc(spec, accessor_cfg(ck, dev, "acc_coded_inv.cfg"), timeout=600, workers=2)
+        ck.add_tlc(chk, "Accessors.tla as coded, Total checked")
+        if chk.ok:
+            raise MachineryError("Accessors.tla: deviations %s are switched on but Total still holds" % dev)
+        ck.extra["accessors_tlc_counterexample"] = {"violated": chk.violated,
+                                                     "state": (chk.error_trace[-1][1] if chk.error_trace else {})}
+    doc = _accessor_doc()
+    meter = workmeter.Meter()
+    cells = [json.loads(line) for line in open(emit)]
+    if len(cells) != 16 * 20 * 2:
+        raise MachineryError("Accessors.tla emitted %d cells, expected %d" % (len(cells), 16 * 20 * 2))
+    drift = 0
+    for c in cells:
+        got, oc = _real_accessor(doc, c["acc"], c["arg"], c["strict"], meter)
+        total = got in ("value", "default", "PDFTypeError", "none")
+        ck.case(1, ("acc", c["acc"], c["arg"], c["strict"]) if c["arg"] not in ("int", "real") else None)
+        if not total:
+            ck.violation(oc, "%s(%s) with STRICT=%s: %s - not a value, a default, PDFTypeError or None"
+                         % (c["acc"], c["arg"], c["strict"], oc),
+                         {"kind": "accessor", "acc": c["acc"], "arg": c["arg"], "strict": c["strict"], "observed": oc})
+        if got != c["result"]:
+            drift += 1
+            if total:
+                ck.note("Accessors.tla/code drift: %s(%s) STRICT=%s: model %s, code %s"
+                        % (c["acc"], c["arg"], c["strict"], c["result"], got))
+    ck.replayed += len(cells)
+    ck.extra["accessor_cells"] = len(cells)
+    ck.extra["accessor_model_code_drift"] = drift
+    ck.sample({"accessor_cell": cells[7], "real": _real_accessor(doc, cells[7]["acc"], cells[7]["arg"], cells[7]["strict"], meter)[0]})
+
+
+# ================================================================================================ RefGraph
+def obj_of(t):
+    return 10 + t if t else 99
+
+
+def realise_graph(g, trav):
+    """-> (bytes, how) ; how = 'entry' (run the three entry points) or the name of the direct API"""
+    nodes = {i + 1: v for i, v in enumerate(g)}
+    extra = {}
+
+    def refs(v, fan=None):
+        out = v["out"] if fan is None else v["out"][:fan]
+        return [Ref(obj_of(t)) for t in out]
+
+    if trav == "xrefchain":
+        return _xref_chain_doc(nodes), "entry"
+    for i, v in nodes.items():
+        n = obj_of(i)
+        if v["k"] == "ref":
+            extra[n] = Ref(obj_of(v["out"][0]))
+            continue
+        leaf = v["k"] == "leaf"
+        if trav == "resolve1":
+            extra[n] = Stream({}, CONTENT) if leaf else {"K": refs(v)}
+        elif trav == "accessor":
+            extra[n] = 90 if leaf else refs(v)
+        elif trav == "resolve_all":
+            extra[n] = 0 if leaf else refs(v)
+        elif trav == "getobj":
+            if leaf:
+                extra[n] = len(CONTENT)
+            else:
+                r = refs(v, 1)
+                extra[n] = Stream({"Length": r[0]} if r else {}, CONTENT)
+        elif trav == "pagetree":
+            extra[n] = ({"Type": N("Page"), "MediaBox": [0, 0, 612, 792], "Resources": {"Font": {"F1": Ref(4)}},
+                         "Contents": Ref(5)} if leaf else {"Type": N("Pages"), "Kids": refs(v), "Count": len(v["out"])})
+        elif trav == "numtree":
+            extra[n] = {"Nums": [0, {"S": N("D")}]} if leaf else {"Kids": refs(v)}
+        elif trav == "nametree":
+            extra[n] = {"Limits": [b"a", b"b"], "Names": [b"aa", 1]} if leaf else {"Kids": refs(v)}
+        elif trav == "outline":
+            d = {"Title": b"t%d" % i, "Dest": [Ref(3), N("Fit")]}
+            if not leaf:
+                r = refs(v, 2)
+                if len(r) >= 1:
+                    d["First"] = r[0]
+                    d["Last"] = r[0]
+                if len(r) >= 2:
+                    d["Next"] = r[1]
+            extra[n] = d
+        else:
+            raise MachineryError("unknown traversal %r" % trav)
+    start = Ref(obj_of(1))
+    if trav == "resolve1":
+        return _plain_doc(extra, page_extra={"Contents": start}), "entry"
+    if trav == "accessor":
+        return _plain_doc(extra, page_extra={"Rotate": start}), "entry"
+    if trav == "resolve_all":
+        fd = {"Type": N("FontDescriptor"), "FontName": N("Helvetica"), "Flags": 32, "FontBBox": start}
+        return _plain_doc(extra, font_extra={"FontDescriptor": fd, "FirstChar": 32, "LastChar": 32, "Widths": [500]}), "entry"
+    if trav == "getobj":
+        return _plain_doc(extra, page_extra={"Contents": start}), "entry"
+    if trav == "pagetree":
+        return _plain_doc(extra, catalog_extra={"Pages": start}), "entry"
+    if trav == "numtree":
+        return _plain_doc(extra, catalog_extra={"PageLabels": start}), "entry"
+    if trav == "nametree":
+        return _plain_doc(extra, catalog_extra={"Names": {"Dests": start}}), "lookup_name"
+    if trav == "outline":
+        return _plain_doc(extra, catalog_extra={"Outlines": start}), "get_outlines"
+    raise MachineryError("unknown traversal %r" % trav)
+
+
+def _xref_chain_doc(nodes):
+    """each container node is a classic cross-reference section whose trailer carries /XRefStm -> out[1] and
+    /Prev -> out[2]; ref / leaf nodes are places that hold no section; startxref points at node 1"""
+    body = {1: {"Type": N("Catalog"), "Pages": Ref(2)}, 2: {"Type": N("Pages"), "Kids": [Ref(3)], "Count": 1},
+            3: {"Type": N("Page"), "Parent": Ref(2), "MediaBox": [0, 0, 612, 792], "Resources": {"Font": {"F1": Ref(4)}},
+                "Contents": Ref(5)},
+            4: {"Type": N("Font"), "Subtype": N("Type1"), "BaseFont": N("Helvetica")}}
+    for rnd in range(2):          # two passes: offsets of later sections are needed by earlier ones (fixed-width numbers)
+        out = bytearray(b"%PDF-1.4\n")
+        offs = {}
+        for n in sorted(body):
+            offs[n] = len(out)
+            out += b"%d 0 obj\n" % n + ser(body[n]) + b"\nendobj\n"
+        offs[5] = len(out)
+        out += b"5 0 obj\n" + ser({"Length": len(CONTENT)}) + b"\nstream\n" + CONTENT + b"\nendstream\nendobj\n"
+        pos = {}
+        for i, v in sorted(nodes.items()):
+            pos[i] = len(out)
+            if v["k"] != "node":
+                out += b"%d 0 obj\n(no section here)\nendobj\n" % (20 + i)
+                continue
+            out += b"xref\n0 6\n0000000000 65535 f \n"
+            for n in range(1, 6):
+                out += b"%010d 00000 n \n" % offs[n]
+            tr = [b"/Size 6 /Root 1 0 R"]
+            keys = [b"XRefStm", b"Prev"]
+            for j, t in enumerate(v["out"][:2]):
+                where = (prev_pos.get(t, 0) if t else prev_size + 1000) if rnd else 0
+                tr.append(b"/%s %010d" % (keys[j], where))
+            out += b"trailer\n<<" + b" ".join(tr) + b">>\n"
+        out += b"startxref\n%d\n%%%%EOF\n" % pos[1]
+        prev_pos, prev_size = pos, len(out)
+    return bytes(out)
+
+
+def _direct_api(data, how, meter):
+    from pdfminer.pdfdocument import PDFDocument
+    from pdfminer.pdfparser import PDFParser
+
+    def go():
+        doc = PDFDocument(PDFParser(io.BytesIO(data)))
+        if how == "lookup_name":
+            try:
+                return doc.lookup_name("Dests", b"zz")
+            except KeyError:
+                return None
+        return list(doc.get_outlines())
+    res, exc = meter.run(go, faultrun.budget_for(data), wall=faultrun.WALL)
+    return workmeter.classify(meter, exc)
+
+
+def run_graph_case(g, trav, meter):
+    """-> (class: ends | hang | recursion, outcome keys seen)"""
+    data, how = realise_graph(g, trav)
+    if how == "entry":
+        ocs = [oc for (_, oc, _, _) in faultrun.run_all(data)]
+    else:
+        ocs = [_direct_api(data, how, meter)]
+    cls = "ends"
+    for oc in ocs:
+        c = oc.split(":")[0]
+        if c in ("hang", "recursion"):
+            cls = c
+    return cls, ocs, data
+
+
+_METER = None
+
+
+def _graph_work(chunk):
+    global _METER
+    if _METER is None:
+        _METER = workmeter.Meter()
+        logging.disable(logging.CRITICAL)
+    out = []
+    for r in chunk:
+        cls, ocs, data = run_graph_case(r["g"], r["trav"], _METER)
+        out.append((r, cls, ocs, len(data)))
+    return out
+
+
+def refgraph_cfg(ck, name, n, maxout, travs, guards, invariants=(), emit=True):
+    return write_cfg(os.path.join(ck.tmp, name),
+                     constants={"N": n, "MaxOut": maxout, "Travs": tla_set(travs), "Guards": tla_set(guards), "C": 4},
+                     invariants=list(invariants), constraints=["Emit"] if emit else [])
 
 
 def run_refgraph(ck):
-    pass
+    import multiprocessing as mp
+    spec = os.path.join(ROBUST, "RefGraph.tla")
+    thorough = ck.tier == "thorough"
+    dev = [d for d in active("robust") if d in GUARD_DEVS.values()]
+    coded_guards = ["pagetree"] + [t for t, d in GUARD_DEVS.items() if d not in dev]
+    ck.extra["refgraph_guards_as_coded"] = coded_guards
+    spaces = [(3, 2, ALL_TRAVS), (4, 1, ALL_TRAVS)] if thorough else [(2, 2, ALL_TRAVS), (3, 1, ALL_TRAVS)]
+    if thorough:
+        spaces.append((4, 2, ["numtree", "pagetree"]))
+    rng = random.Random(ck.seed)
+    todo = []
+    tlc_verdicts = {}
+    for (n, maxout, travs) in spaces:
+        tag = "N=%d MaxOut=%d" % (n, maxout)
+        # (a) intended machine: every traversal guarded - Bound holds on every graph
+        res = run_tlc(spec, refgraph_cfg(ck, "rg_int_%d_%d.cfg" % (n, maxout), n, maxout, travs, ALL_TRAVS,
+                                         ["BoundOK", "EnterOnce"], emit=False),
+                      coverage=(n * maxout <= 4), timeout=3000)
+        ck.add_tlc(res, "RefGraph.tla intended (all guards) %s" % tag)
+        if not res.ok:
+            raise MachineryError("RefGraph.tla: the guarded traversals violate %s (%s):\n%s"
+                                 % (res.violated, tag, res.error_text[:3000]))
+        if res.actions:
+            require_coverage(res, ["ABuild", "AStart", "AResolveStep", "AFinishLoop", "AEnter", "AChild", "AReturn", "AFinish"])
+        # (b) as coded: TLC decides termination per (graph, traversal); emitted for replay
+        emit = os.path.join(ck.tmp, "rg_%d_%d.ndjson" % (n, maxout))
+        res = run_tlc(spec, refgraph_cfg(ck, "rg_cod_%d_%d.cfg" % (n, maxout), n, maxout, travs, coded_guards),
+                      emit=emit, timeout=3000)
+        ck.add_tlc(res, "RefGraph.tla as coded (guards %s) %s" % (",".join(coded_guards), tag))
+        rows = [json.loads(line) for line in open(emit)]
+        os.remove(emit)
+        if not rows:
+            raise MachineryError("RefGraph.tla emitted nothing for %s" % tag)
+        for r in rows:
+            tlc_verdicts[(tag, r["trav"], r["status"])] = tlc_verdicts.get((tag, r["trav"], r["status"]), 0) + 1
+        diverging = [r for r in rows if r["status"] in ("hang", "recursion")]
+        ending = [r for r in rows if r["status"] not in ("hang", "recursion")]
+        if thorough and (n, maxout) == (3, 2):
+            pick = rows
+        else:
+            k = 900 if thorough else 260
+            pick = rng.sample(diverging, min(len(diverging), k)) + rng.sample(ending, min(len(ending), k))
+        todo.extend(pick)
+    # (c) TLC finds the non-terminating ones as violated Bound invariants of the as-coded machine
+    if len(coded_guards) < len(ALL_TRAVS):
+        chk = run_tlc(spec, refgraph_cfg(ck, "rg_cod_inv.cfg", 2, 2, ALL_TRAVS, coded_guards, ["BoundOK"], emit=False),
+                      timeout=600)
+        ck.add_tlc(chk, "RefGraph.tla as coded, BoundOK checked (N=2)")
+        if chk.ok:
+            raise MachineryError("RefGraph.tla: guards %s are missing but BoundOK holds" % dev)
+        last = chk.error_trace[-1][1] if chk.error_trace else {}
+        ck.extra["refgraph_tlc_counterexample"] = {"violated": chk.violated, "graph": last.get("g"), "trav": last.get("trav"),
+                                                   "status": last.get("status"), "trace_len": len(chk.error_trace)}
+    ck.extra["refgraph_tlc_verdicts"] = {"%s %s %s" % k: v for k, v in sorted(tlc_verdicts.items())}
+    # replay
+    chunks = [todo[i:i + 20] for i in range(0, len(todo), 20)]
+    drift = 0
+    supp = {}
+    agree = 0
+    ctx = mp.get_context("fork")
+    with ctx.Pool(min(16, os.cpu_count() or 4)) as pool:
+        for res in pool.imap_unordered(_graph_work, chunks):
+            for (r, cls, ocs, dlen) in res:
+                model = r["status"] if r["status"] in ("hang", "recursion") else "ends"
+                entry = r["trav"] in ENTRY_TRAVS
+                cyc = model != "ends" or cls != "ends"
+                ck.case(len(ocs), ("graph", r["trav"], json.dumps(r["g"])) if cyc or any(v["k"] != "leaf" for v in r["g"]) else None)
+                case = {"kind": "refgraph", "g": r["g"], "trav": r["trav"], "model": r["status"], "observed": ocs}
+                for oc in sorted(set(ocs)):
+                    c = oc.split(":")[0]
+                    if c in ("ok", "family"):
+                        continue
+                    if entry:
+                        ck.violation(oc, "traversal %s over graph %s: %s (model as coded: %s)"
+                                     % (r["trav"], json.dumps(r["g"]), oc, r["status"]), case)
+                    else:
+                        supp[oc] = supp.get(oc, 0) + 1
+                if cls == model:
+                    agree += 1
+                else:
+                    drift += 1
+                    if drift <= 5:
+                        ck.note("RefGraph.tla/code drift: %s over %s: model %s, code %s %s"
+                                % (r["trav"], json.dumps(r["g"]), r["status"], cls, ocs))
+                if agree % 700 == 1 and cyc:
+                    ck.sample(dict(case, input_bytes=dlen))
+    ck.replayed += len(todo)
+    ck.extra["refgraph_replayed"] = len(todo)
+    ck.extra["refgraph_model_code_agree"] = agree
+    ck.extra["refgraph_model_code_drift"] = drift
+    if supp:
+        ck.extra["supplementary_direct_api_findings"] = supp
+        ck.note("traversals no extraction entry point reaches (get_outlines, lookup_name) diverge on cyclic graphs: %s "
+                "- outside the property as stated, reported as a note" % json.dumps(supp, sort_keys=True))
+
+
+def replay_case(case, path):
+    meter = workmeter.Meter()
+    logging.disable(logging.CRITICAL)
+    if case["kind"] == "accessor":
+        got, oc = _real_accessor(_accessor_doc(), case["acc"], case["arg"], case["strict"], meter)
+        print("%s(%s) STRICT=%s -> %s (%s)" % (case["acc"], case["arg"], case["strict"], got, oc))
+        bad = got not in ("value", "default", "PDFTypeError", "none")
+    else:
+        cls, ocs, data = run_graph_case(case["g"], case["trav"], meter)
+        print("traversal %s over %s: %s %s (model: %s)" % (case["trav"], json.dumps(case["g"]), cls, ocs, case.get("model")))
+        bad = any(oc.split(":")[0] not in ("ok", "family") for oc in ocs)
+    if bad:
+        print("VIOLATION property=C13 replay=%s" % path)
+    return 1 if bad else 0
